@@ -201,7 +201,7 @@ def _run_order(task, c):
     kind, w, nw = task["kind"], task["w"], task["nw"]
     gen, rebuild = _targets(c)[kind]
     res = TaskResult()
-    src = rsource.ScriptedRandom(c.sequence_start.random, None)
+    src = rsource.ScriptedRandom(rsource.random_module(c.sequence_start), None)
     n = 0
     with src:
         root = _probe(src, gen, kind)
@@ -298,7 +298,7 @@ def run_task(task):
     first_clause = set()
     nviol = 0
     depth_hist = {}
-    src = rsource.ScriptedRandom(c.sequence_start.random, None)
+    src = rsource.ScriptedRandom(rsource.random_module(c.sequence_start), None)
     with src:   # restores the module functions on exit, whatever happens
         root = _probe(src, gen, kind)
         if w == 0:
@@ -379,7 +379,7 @@ def replay(case):
     gen, rebuild = _targets(c)[kind]
     forced = case["draws"]
     if case.get("history"):
-        src0 = rsource.ScriptedRandom(c.sequence_start.random, None)
+        src0 = rsource.ScriptedRandom(rsource.random_module(c.sequence_start), None)
         with src0:
             for h in case["history"]:
                 try:
@@ -405,7 +405,7 @@ def replay(case):
         except ValueError:
             raise _Unreachable()
 
-    src = rsource.ScriptedRandom(c.sequence_start.random, chooser)
+    src = rsource.ScriptedRandom(rsource.random_module(c.sequence_start), chooser)
     obj = exc = None
     with src:
         src.trace = []
